@@ -4044,3 +4044,86 @@ B("C06-batch-applied-without-the-keyspaces-lock", "C06", "C06:R-C06.11:batch::Wr
             .expect("lock is poisoned");
 """, """        let keyspaces = ();
 """)
+
+# ---- R-C01.11 write builders
+_ITEM = "src/batch/item.rs"
+B("C01-batch-remove-queues-weak", "C01", "C01:R-C01.11:batch::WriteBatch::remove:queues-one-item-of-its-own-kind", BATCH,
+  """            .push(Item::new(p.clone(), key, vec![], ValueType::Tombstone));""",
+  """            .push(Item::new(p.clone(), key, vec![], ValueType::WeakTombstone));""")
+B("C01-batch-remove-weak-queues-strong", "C01", "C01:R-C01.11:batch::WriteBatch::remove_weak:queues-one-item-of-its-own-kind", BATCH,
+  """            .push(Item::new(p.clone(), key, vec![], ValueType::WeakTombstone));""",
+  """            .push(Item::new(p.clone(), key, vec![], ValueType::Tombstone));""")
+B("C01-batch-insert-dedupes-last", "C01", "C01:R-C01.11:batch::WriteBatch::insert:queues-one-item-of-its-own-kind", BATCH,
+  """        self.data
+            .push(Item::new(p.clone(), key, value, ValueType::Value));""",
+  """        let item = Item::new(p.clone(), key, value, ValueType::Value);
+        // NOTE: Collapse repeated writes of the same key
+        if self.data.last().is_some_and(|l| l.key == item.key) {
+            self.data.pop();
+        }
+        self.data.push(item);""")
+B("C01-item-new-swaps-key-value", "C01", "C01:R-C01.11:batch::item::Item::new:components-stay-apart", _ITEM,
+  """            key: k,
+            value: v,
+            value_type,""",
+  """            key: v.clone().into(),
+            value: k.clone().into(),
+            value_type,""")
+B("C01-ingestion-tombstone-is-weak", "C01", "C01:R-C01.11:ingestion::Ingestion::<'a>::write_tombstone:forwards-to-the-like-named-ingestion-op", _ING,
+  """        self.inner.write_tombstone(key).map_err(Into::into)""",
+  """        self.inner.write_weak_tombstone(key).map_err(Into::into)""")
+B("C01-overlay-filter-inverted", "C01", "C01:R-C01.11:tx::write_tx::ignore_tombstone_value:none-exactly-for-a-tombstone", _TXW,
+  """    if item.is_tombstone() {
+        None
+    } else {
+        Some(item)
+    }""",
+  """    if item.is_tombstone() {
+        Some(item)
+    } else {
+        None
+    }""")
+E("EQ-C01-batch-insert-local", BATCH,
+  """        self.data
+            .push(Item::new(p.clone(), key, value, ValueType::Value));""",
+  """        let keyspace = p.clone();
+        let item = Item::new(keyspace, key, value, ValueType::Value);
+        self.data.push(item);""", props=["C01", "C08", "C02"])
+E("EQ-C01-overlay-filter-match", _TXW,
+  """    if item.is_tombstone() {
+        None
+    } else {
+        Some(item)
+    }""",
+  """    if !item.is_tombstone() {
+        return Some(item);
+    }
+    None""", props=["C01", "C08"])
+
+# ---- transactional database wrappers (rules/wrappers.py)
+_STXM = "src/tx/single_writer/mod.rs"
+_OTXM = "src/tx/optimistic/mod.rs"
+B("C16-tx-keyspace-ignores-options", "C16", "C16:R-C16.10:tx::single_writer::TxDatabase::keyspace:forwards-own-arguments-to-Database-keyspace", _STXM,
+  """        let keyspace = self.inner.keyspace(name, create_options)?;""",
+  """        // NOTE: Transactional keyspaces always use the defaults
+        let _ = create_options;
+        let keyspace = self.inner.keyspace(name, KeyspaceCreateOptions::default)?;""")
+B("C18-optimistic-keyspace-strips-filter", "C18", "C18:R-C18.6:tx::optimistic::OptimisticTxDatabase::keyspace:forwards-own-arguments-to-Database-keyspace", _OTXM,
+  """        let keyspace = self.inner.keyspace(name, create_options)?;""",
+  """        let keyspace = self
+            .inner
+            .keyspace(name, || create_options().with_compaction_filter_factory(None))?;""")
+B("C06-read-tx-own-nonce", "C06", "C06:R-C06.12:tx::optimistic::OptimisticTxDatabase::read_tx:forwards-own-arguments-to-Database-snapshot", _OTXM,
+  """    pub fn read_tx(&self) -> Snapshot {
+        self.inner.snapshot()
+    }""",
+  """    pub fn read_tx(&self) -> Snapshot {
+        Snapshot::new(crate::snapshot_nonce::SnapshotNonce::new(
+            self.inner.seqno(),
+            self.inner.supervisor.snapshot_tracker.clone(),
+        ))
+    }""")
+E("EQ-C16-tx-keyspace-local", _STXM,
+  """        let keyspace = self.inner.keyspace(name, create_options)?;""",
+  """        let db = &self.inner;
+        let keyspace = db.keyspace(name, create_options)?;""", props=["C16", "C18", "C12"])
